@@ -84,3 +84,6 @@ Lemma src_teardown : forall queue,
 Proof. change waitforall_cond_src with LOr. exact teardown_or_runs_everything. Qed.
 Lemma src_shutdown_order : sdlist_eqb shutdown_steps_src shutdown_ref = true /\ dtor_shuts_down_src = true.
 Proof. split; reflexivity. Qed.
+
+Lemma src_wake_every_push : forall n workers, stranded wake_policy_src n workers = 0%nat.
+Proof. change wake_policy_src with WakeEveryPush. exact every_push_no_stranded. Qed.
